@@ -13,7 +13,7 @@ import (
 
 func init() {
 	Register("C14", "Decides, on the per-byte summaries of every state function of the schema-side scanners (notations/jschema/scanner, rules/enum): (nl) LF and CR have identical rows in every state, so the newline convention cannot change the lexeme stream; (blank) in every between-token state SPACE and TAB have identical rows; (norm) rule names are compared only after TrimSpaces().Unquote(), so quoted and bare rule names mean the same; (deleg) re-dispatch of one byte between states terminates. (space) a skipped blank leaves no trace; (style) every test for one annotation opener is paired with the test for the other. Does NOT decide equality of AST/example/OpenAPI across spellings.",
-		c14nl, c14blank, c14space, c14norm, c14style, c14nlre, c14emptycomment)
+		c14nl, c14blank, c14space, c14norm, c14style, c14nlre, c14emptycomment, c14trimnote, c14nlskip)
 }
 
 var schemaScanners = []string{"notations/jschema/scanner", "rules/enum"}
@@ -511,5 +511,48 @@ func emptyCommentAs(c *core.Ctx, R string) {
 	}
 	if n == 0 {
 		c.Bad(R, "states", "-", "comment-opener states", "undecided: no state enters a line-scoped skip state on an ordinary byte")
+	}
+}
+
+// c14trimnote: notes and comments are stored without the blanks around them.
+func c14trimnote(c *core.Ctx) {
+	const R = "C14.trimnote"
+	c.Rule(R, "in the loader every SetComment(...) whose argument is taken from a lexeme (`lex.Value()`) trims it with TrimSpaces() first: the text of a note runs to the end of the line / to the closing `*/`, so blanks before the line end would otherwise get into the AST and trailing padding would change GetAST()")
+	c.Floor(R, 2)
+	n := 0
+	for _, cs := range c.P.Calls() {
+		if core.Rel(cs.Pkg.PkgPath) != "notations/jschema/loader" || !strings.HasSuffix(core.ExprStr(cs.Call.Fun), ".SetComment") {
+			continue
+		}
+		arg := core.ExprStr(cs.Call.Args[len(cs.Call.Args)-1])
+		if !strings.Contains(arg, ".Value()") {
+			continue
+		}
+		n++
+		fn := core.DeclName(cs.Pkg, cs.Decl)
+		c.Check(strings.Contains(arg, ".TrimSpaces()"), R, core.F("%s:SetComment#%d", fn, n), c.P.Pos(cs.Call.Pos()), "SetComment("+arg+") in "+fn, "the note is stored untrimmed: blanks at the end of the line become part of the AST")
+	}
+}
+
+// c14nlskip: line breaks are accepted between all tokens of a rule-set.
+func c14nlskip(c *core.Ctx) {
+	const R = "C14.nlskip"
+	c.Rule(R, "the state functions of the annotation rule loader that wait for a structural token of the rule-set ({, key, colon, value start, comma, }) all let a NewLine lexeme pass: ruleKeyOrObjectEnd, objectEndAfterRuleName, ruleValueBegin, ruleValue, loadEmbeddedValue each mention lexeme.NewLine. A multi-line annotation may break the line between any two tokens; a state that forgets it rejects `{min:⏎ 0}` with `Loader error` although `{⏎min: 0⏎}` is accepted")
+	c.Floor(R, 5)
+	for _, m := range []string{"ruleKeyOrObjectEnd", "objectEndAfterRuleName", "ruleValueBegin", "ruleValue", "loadEmbeddedValue"} {
+		fn := "(*notations/jschema/loader.ruleLoader)." + m
+		d := c.P.FindDecl(fn)
+		if d == nil {
+			c.Unresolved(R, fn)
+			continue
+		}
+		has := false
+		ast.Inspect(d.Decl.Body, func(n ast.Node) bool {
+			if se, ok := n.(*ast.SelectorExpr); ok && core.ExprStr(se) == "lexeme.NewLine" {
+				has = true
+			}
+			return true
+		})
+		c.Check(has, R, fn, c.P.Pos(d.Decl.Pos()), fn+" lets a NewLine lexeme pass", "a line break at this point of a rule-set is a `Loader error`")
 	}
 }
